@@ -100,6 +100,158 @@ func TestVerifReplay(t *testing.T) {
 	return strings.Contains(s, "VERIF-ASSERT-FAILED "+label+"\n"), s, nil
 }
 
+// traceSample is one explored path to be re-run natively.
+type traceSample struct {
+	Entry   string
+	Model   map[string]uint64
+	Reached []string
+	Outcome string
+	Bounds  map[string]int
+}
+
+// nativeTraces runs the sampled paths natively in one go test invocation and
+// returns how many agreed with the symbolic execution (same outcome, same
+// sequence of Reach labels, no failed assertion) and a description of the
+// disagreements.
+func nativeTraces(cfg *CheckCfg, samples []traceSample) (int, []string, error) {
+	if len(samples) == 0 {
+		return 0, nil, nil
+	}
+	tmp, err := os.MkdirTemp("", "gosym-trace-")
+	if err != nil {
+		return 0, nil, err
+	}
+	defer os.RemoveAll(tmp)
+	pkgDir := cfg.Replay.TestPkgDir
+	pkgName, err := packageName(filepath.Join(*repoDir, pkgDir))
+	if err != nil {
+		return 0, nil, err
+	}
+	var cases strings.Builder
+	seenEntry := map[string]bool{}
+	icpt := map[string]string{}
+	for k, v := range cfg.Intercept {
+		icpt[k] = v
+	}
+	for i, s := range samples {
+		f := filepath.Join(tmp, fmt.Sprintf("trace-%d.json", i))
+		b, _ := json.Marshal(map[string]any{"model": s.Model, "tier": *tier, "bounds": s.Bounds})
+		os.WriteFile(f, b, 0o644)
+		if !seenEntry[s.Entry] {
+			seenEntry[s.Entry] = true
+			fmt.Fprintf(&cases, "\t\tcase %q:\n\t\t\t%s()\n", s.Entry, s.Entry)
+			for _, e := range cfg.Entries {
+				if e.Name == s.Entry {
+					for k, v := range e.Intercept {
+						icpt[k] = v
+					}
+				}
+			}
+		}
+	}
+	var list strings.Builder
+	for i, s := range samples {
+		fmt.Fprintf(&list, "%s %s\n", s.Entry, filepath.Join(tmp, fmt.Sprintf("trace-%d.json", i)))
+	}
+	listFile := filepath.Join(tmp, "list.txt")
+	os.WriteFile(listFile, []byte(list.String()), 0o644)
+	test := fmt.Sprintf(`package %s
+
+import (
+	"fmt"
+	"os"
+	"strings"
+	"testing"
+
+	zzverif "github.com/gittuf/gittuf/internal/zzverif"
+)
+
+func zzRunTraced(entry string) (outcome string) {
+	defer func() {
+		if r := recover(); r != nil {
+			if _, ok := r.(zzverif.AssumeFailed); ok {
+				outcome = "assume"
+				return
+			}
+			outcome = "panic"
+		}
+	}()
+	switch entry {
+%s	}
+	return "ok"
+}
+
+func TestVerifTrace(t *testing.T) {
+	b, err := os.ReadFile(os.Getenv("VERIF_TRACE_LIST"))
+	if err != nil {
+		t.Fatal(err)
+	}
+	for i, line := range strings.Split(strings.TrimSpace(string(b)), "\n") {
+		parts := strings.SplitN(line, " ", 2)
+		zzverif.LoadReplayFile(parts[1])
+		outcome := zzRunTraced(parts[0])
+		fmt.Printf("VERIF-TRACE %%d outcome=%%s reached=%%s failed=%%s\n", i, outcome, strings.Join(zzverif.ReachedL, ","), strings.Join(zzverif.Failed, ","))
+	}
+	fmt.Println("VERIF-TRACE-DONE")
+}
+`, pkgName, cases.String())
+	testFile := filepath.Join(tmp, "zz_verif_trace_test.go")
+	if err := os.WriteFile(testFile, []byte(test), 0o644); err != nil {
+		return 0, nil, err
+	}
+	repl := map[string]string{
+		filepath.Join(*repoDir, "internal/zzverif/verif.go"):      filepath.Join(*verifDir, "harness/verif/verif.go"),
+		filepath.Join(*repoDir, pkgDir, "zz_verif_trace_test.go"): testFile,
+	}
+	for r, v := range cfg.HarnessFiles {
+		repl[filepath.Join(*repoDir, r)] = filepath.Join(*verifDir, v)
+	}
+	for r, v := range cfg.Replay.Overlay {
+		repl[filepath.Join(*repoDir, r)] = filepath.Join(*verifDir, v)
+	}
+	if len(icpt) > 0 {
+		extra, err := nativeInterceptOverlay(icpt, repl, tmp)
+		if err != nil {
+			return 0, nil, err
+		}
+		for k, v := range extra {
+			repl[k] = v
+		}
+	}
+	ob, _ := json.Marshal(map[string]any{"Replace": repl})
+	ofile := filepath.Join(tmp, "overlay.json")
+	os.WriteFile(ofile, ob, 0o644)
+	cmd := exec.Command("go", "test", "-mod=mod", "-vet=off", "-count=1", "-overlay", ofile, "-run", "^TestVerifTrace$", "-v", "./"+pkgDir+"/")
+	cmd.Dir = *repoDir
+	cmd.Env = append(os.Environ(), "VERIF_TRACE_LIST="+listFile, "GOFLAGS=-mod=mod", "GOPROXY=off", "GOTOOLCHAIN=local")
+	out, err := cmd.CombinedOutput()
+	so := string(out)
+	if !strings.Contains(so, "VERIF-TRACE-DONE") {
+		return 0, nil, fmt.Errorf("native trace run did not complete: %v\n%s", err, tail(so, 30))
+	}
+	agree := 0
+	var diffs []string
+	got := map[int]string{}
+	for _, line := range strings.Split(so, "\n") {
+		var idx int
+		if strings.HasPrefix(line, "VERIF-TRACE ") && !strings.HasPrefix(line, "VERIF-TRACE-DONE") {
+			rest := strings.TrimPrefix(line, "VERIF-TRACE ")
+			sp := strings.IndexByte(rest, ' ')
+			fmt.Sscanf(rest[:sp], "%d", &idx)
+			got[idx] = rest[sp+1:]
+		}
+	}
+	for i, s := range samples {
+		want := fmt.Sprintf("outcome=%s reached=%s failed=", s.Outcome, strings.Join(s.Reached, ","))
+		if got[i] == want {
+			agree++
+		} else {
+			diffs = append(diffs, fmt.Sprintf("%s model=%v: symbolic {%s} native {%s}", s.Entry, s.Model, want, got[i]))
+		}
+	}
+	return agree, diffs, nil
+}
+
 func packageName(dir string) (string, error) {
 	ents, err := os.ReadDir(dir)
 	if err != nil {
